@@ -388,7 +388,14 @@ class FakeTRX(Transceiver):
 		elif self.ctrl_if.verify_cmd(request, "FAKE_TRXC_DELAY", 1):
 			log.debug("(%s) Recv FAKE_TRXC_DELAY cmd", self)
 
-			self.ctrl_if.rsp_delay_ms = int(request[1])
+			# Parse / validate the delay (time.sleep() cannot handle
+			# arbitrarily large values, and would block us for ages)
+			delay_ms = int(request[1])
+			if delay_ms > 3600 * 1000:
+				log.error("(%s) FAKE_TRXC_DELAY is too big" % self)
+				return -1
+
+			self.ctrl_if.rsp_delay_ms = delay_ms
 			log.info("(%s) Artificial TRXC delay set to %d",
 				 self, self.ctrl_if.rsp_delay_ms)
 
